@@ -477,9 +477,40 @@ def check_parse_response(ctx, rng):
                     ctx.report(f'parse-response-phantom-field:{k}', f'absent field {k} reported as {r.get(k)!r}', w)
 
 
+def check_command_scope(ctx, rng):
+    """The command name starts with /localhost/nfd when the face leads to a forwarder on this machine (a unix socket, any
+    loopback address) and with /localhop/nfd otherwise: a forwarder never sees - hence never answers 200 to - a command sent
+    under the wrong scope.  Faces are built, not opened; hosts are numeric (no resolver needed)."""
+    from ndn.transport.udp_face import UdpFace
+    from ndn.transport.stream_face import UnixFace, TcpFace
+    from ndn.app_support.nfd_mgmt import make_command, make_command_v2
+    local = ['127.0.0.1', '127.0.1.1', '127.8.9.10', '127.255.255.254', '::1']
+    remote = ['10.1.2.3', '192.0.2.7', '8.8.8.8', '128.0.0.1', '2001:db8::1', '::2', '12.7.0.1']
+    faces = [('unix', UnixFace('/run/nfd/nfd.sock'), True)]
+    for h in local + remote:
+        for cls in (UdpFace, TcpFace):
+            faces.append((f'{cls.__name__}({h})', cls(h, rng.choice([6363, 7000])), h in local))
+    for label, face, is_local in faces:
+        prefix = gen.simple_name(rng, 1, 3)
+        for fn in (make_command_v2, make_command):
+            w = {'face': label, 'builder': fn.__name__}
+            try:
+                name = fn('rib', rng.choice(['register', 'unregister']), face, name=prefix)
+            except Exception as e:   # noqa
+                ctx.report(f'command-builder-raises:{type(e).__name__}@{raising_site(e)[0]}', f'{e!r}', w)
+                continue
+            comps = [bytes(c) for c in name]
+            ctx.case(('scope', label, fn.__name__), nontrivial=True)
+            ctx.event('command-scope-local' if is_local else 'command-scope-remote')
+            want = [C(b'localhost' if is_local else b'localhop'), C(b'nfd'), C(b'rib')]
+            if comps[:3] != want:
+                ctx.report('command-scope-wrong', f'command for a {"local" if is_local else "remote"} face starts with {rc.name_to_uri(comps[:2], canonical=True)}', w)
+
+
 def run(ctx):
     ctx.rule = RULE
     rng = ctx.rng
+    check_command_scope(ctx, rng)
     n = ctx.n(800, 300000)
     for i in range(n):
         fe = 'v2' if i % 2 == 0 else 'v1'
